@@ -1841,6 +1841,60 @@ func runeValuation(ch int64, tables ...map[string]map[int64]constant.Value) Valu
 	return val
 }
 
+// runeTables: the constant rune-keyed tables of f's package (a dispatch written as a map lookup), by qualified name.
+func runeTables(f *FuncRef) map[string]map[int64]constant.Value {
+	info := f.Pkg.TypesInfo
+	tables := map[string]map[int64]constant.Value{}
+	for _, file := range f.Pkg.Syntax {
+		for _, d := range file.Decls {
+			gd, ok := d.(*ast.GenDecl)
+			if !ok {
+				continue
+			}
+			for _, sp := range gd.Specs {
+				vs, ok := sp.(*ast.ValueSpec)
+				if !ok {
+					continue
+				}
+				for i, nm := range vs.Names {
+					v, ok := info.Defs[nm].(*types.Var)
+					if !ok || i >= len(vs.Values) {
+						continue
+					}
+					if _, isMap := v.Type().Underlying().(*types.Map); !isMap {
+						continue
+					}
+					init, assigned := pkgVarInitOf(f, v)
+					lit, ok := init.(*ast.CompositeLit)
+					if !ok || assigned {
+						continue
+					}
+					tab := map[int64]constant.Value{}
+					good := true
+					for _, el := range lit.Elts {
+						kv, ok := el.(*ast.KeyValueExpr)
+						if !ok {
+							good = false
+							break
+						}
+						k, okk := constInt(info, kv.Key)
+						cv := constOf(info, kv.Value)
+						if !okk || cv == nil {
+							good = false
+							break
+						}
+						tab[k] = cv
+					}
+					if good {
+						tables[shortPkg(v.Pkg())+"."+v.Name()] = tab
+					}
+				}
+			}
+		}
+	}
+	return tables
+}
+
 // c10RootDispatch — which token class a character starts, and which characters continue an identifier (C10.d):
 // rootState's dispatch, read as a decision table over representative runes, and the continuation condition of
 // IdentifyState. A digit that does not start a number, a letter that does not start an identifier, or an identifier
@@ -1852,55 +1906,7 @@ func c10RootDispatch(c *Ctx, r *Report, clause string) {
 		key := f.Name + "/character-class-to-token-class"
 		pe := newPathEnum(info)
 		paths, err := pe.Enumerate(f.Decl.Body.List)
-		// constant rune-keyed tables of the package (a dispatch written as a map lookup)
-		tables := map[string]map[int64]constant.Value{}
-		for _, file := range f.Pkg.Syntax {
-			for _, d := range file.Decls {
-				gd, ok := d.(*ast.GenDecl)
-				if !ok {
-					continue
-				}
-				for _, sp := range gd.Specs {
-					vs, ok := sp.(*ast.ValueSpec)
-					if !ok {
-						continue
-					}
-					for i, nm := range vs.Names {
-						v, ok := info.Defs[nm].(*types.Var)
-						if !ok || i >= len(vs.Values) {
-							continue
-						}
-						if _, isMap := v.Type().Underlying().(*types.Map); !isMap {
-							continue
-						}
-						init, assigned := pkgVarInitOf(f, v)
-						lit, ok := init.(*ast.CompositeLit)
-						if !ok || assigned {
-							continue
-						}
-						tab := map[int64]constant.Value{}
-						good := true
-						for _, el := range lit.Elts {
-							kv, ok := el.(*ast.KeyValueExpr)
-							if !ok {
-								good = false
-								break
-							}
-							k, okk := constInt(info, kv.Key)
-							cv := constOf(info, kv.Value)
-							if !okk || cv == nil {
-								good = false
-								break
-							}
-							tab[k] = cv
-						}
-						if good {
-							tables[shortPkg(v.Pkg())+"."+v.Name()] = tab
-						}
-					}
-				}
-			}
-		}
+		tables := runeTables(f)
 		if err != nil {
 			r.Undecided(clause, "R4 DECISION-TABLE", key, c.pos(f.Decl.Pos()), err.Error())
 		} else {
@@ -2031,5 +2037,190 @@ func c10RootDispatch(c *Ctx, r *Report, clause string) {
 		}
 		r.Check(len(bad) == 0, clause, "R4 DECISION-TABLE", key, c.pos(loop.Pos()),
 			"an identifier continues over every letter, every digit 0–9 and `_`, and ends at blanks, punctuation and the end of input", strings.Join(bad, "; "))
+	}
+}
+
+// c10UnionBraceLayout — layout between `%union` and its body (C10.d): the runes that may stand between the directive
+// word and `{` are the runes rootState skips between any two tokens (its blank class, read off rootState itself),
+// and the brace is recognised by itself — what follows it is the body's business. Decided on DirectiveUnionState:
+// the first loop of the function continues on every blank and stops on `{`; the test that follows is a test of the
+// next rune alone (a word matcher that also looks at the rune after the word rejects `%union {val int}`).
+// Comments in that position are a separate obligation (comment-before-the-brace).
+func c10UnionBraceLayout(c *Ctx, r *Report, clause string) {
+	root := c.need(r, clause, "Parser", "", "rootState")
+	f := c.need(r, clause, "Parser", "", "DirectiveUnionState")
+	if root == nil || f == nil {
+		return
+	}
+	// the blank class of rootState
+	rpe := newPathEnum(root.Pkg.TypesInfo)
+	rpaths, err := rpe.Enumerate(root.Decl.Body.List)
+	if err != nil {
+		r.Undecided(clause, "R4 DECISION-TABLE", f.Name+"/blanks-before-the-brace", c.pos(root.Decl.Pos()), err.Error())
+		return
+	}
+	rtables := runeTables(root)
+	isBlank := func(ch rune) bool {
+		sel := selectPaths(rpaths, runeValuation(int64(ch), rtables))
+		if len(sel) == 0 {
+			return false
+		}
+		for _, p := range sel {
+			if p.Kind != "return" || len(p.Vals) != 1 || !strings.HasSuffix(p.Vals[0].String(), "rootState") {
+				return false
+			}
+			for _, e := range p.Effects {
+				if e.Kind == "call" && (strings.HasSuffix(e.Term.Name, "lexer).emit") || strings.HasSuffix(e.Term.Name, "lexer).emitValue") || strings.HasSuffix(e.Term.Name, "lexer).error")) {
+					return false
+				}
+			}
+		}
+		return true
+	}
+	var blanks []rune
+	for _, ch := range " \t\n\r\f\v" {
+		if isBlank(ch) {
+			blanks = append(blanks, ch)
+		}
+	}
+	// carriage return: a grammar file with CRLF line ends has the same layout as one with LF line ends
+	r.Check(isBlank('\r'), "C10.e", "R4 DECISION-TABLE", root.Name+"/carriage-return-is-a-blank", c.pos(root.Decl.Pos()),
+		"rootState skips a carriage return like the other blanks",
+		"rootState does not skip '\\r': a grammar file saved with CRLF line ends is rejected (`not correct lexer`) although only its line breaks differ")
+	info := f.Pkg.TypesInfo
+	key := f.Name + "/blanks-before-the-brace"
+	// the brace test: the first top-level `if … { l.error(…); return }`
+	iBrace := -1
+	for i, st := range f.Decl.Body.List {
+		is, ok := st.(*ast.IfStmt)
+		if !ok || is.Else != nil {
+			continue
+		}
+		hasErr := false
+		ast.Inspect(is.Body, func(n ast.Node) bool {
+			if call, ok := n.(*ast.CallExpr); ok {
+				if fn := callee(info, call); fn != nil && fn.Name() == "error" {
+					hasErr = true
+				}
+			}
+			return true
+		})
+		if hasErr && endsInExit(is.Body) {
+			iBrace = i
+			break
+		}
+	}
+	if iBrace < 0 {
+		r.Undecided(clause, "R4 DECISION-TABLE", key, c.pos(f.Decl.Pos()), "no `if <next rune is not {> { error }` at function level")
+		return
+	}
+	var loop *ast.ForStmt
+	for _, st := range f.Decl.Body.List[:iBrace] {
+		if fs, ok := st.(*ast.ForStmt); ok && loop == nil {
+			loop = fs
+		}
+	}
+	renameRunes := func(pe *PathEnum, root ast.Node) {
+		ast.Inspect(root, func(n ast.Node) bool {
+			if id, ok := n.(*ast.Ident); ok {
+				if v, isV := objOf(info, id).(*types.Var); isV && !v.IsField() && v.Pkg() != nil && v.Parent() != v.Pkg().Scope() {
+					if b, isB := v.Type().Underlying().(*types.Basic); isB && b.Kind() == types.Int32 {
+						pe.rename[v] = "RUNE"
+					}
+				}
+			}
+			return true
+		})
+	}
+	var bad []string
+	if loop == nil {
+		bad = append(bad, "no loop skips blanks between the directive word and the brace")
+	} else {
+		body := append([]ast.Stmt{}, loop.Body.List...)
+		if loop.Cond != nil {
+			// `for c { … }` ≡ `for { if !c { break }; … }`
+			neg := &ast.UnaryExpr{OpPos: loop.Cond.Pos(), Op: token.NOT, X: &ast.ParenExpr{Lparen: loop.Cond.Pos(), X: loop.Cond, Rparen: loop.Cond.End()}}
+			brk := &ast.IfStmt{If: loop.Cond.Pos(), Cond: neg, Body: &ast.BlockStmt{Lbrace: loop.Cond.Pos(), List: []ast.Stmt{&ast.BranchStmt{TokPos: loop.Cond.Pos(), Tok: token.BREAK}}, Rbrace: loop.Cond.End()}}
+			body = append([]ast.Stmt{brk}, body...)
+		}
+		pe := newPathEnum(info)
+		renameRunes(pe, loop)
+		paths, err := pe.Enumerate(body)
+		if err != nil {
+			r.Undecided(clause, "R4 DECISION-TABLE", key, c.pos(loop.Pos()), err.Error())
+			return
+		}
+		leaves := func(ch rune) (stays, leavesLoop bool) {
+			sel := selectPaths(paths, runeValuation(int64(ch)))
+			if len(sel) == 0 {
+				return false, false
+			}
+			stays, leavesLoop = true, true
+			for _, p := range sel {
+				if p.Kind == "break" || p.Kind == "return" || p.Kind == "goto" || p.Kind == "panic" {
+					stays = false
+				} else {
+					leavesLoop = false
+				}
+			}
+			return
+		}
+		for _, b := range blanks {
+			if st, _ := leaves(b); !st {
+				bad = append(bad, fmt.Sprintf("%q is a blank for rootState but is not skipped between `%%union` and `{`", b))
+			}
+		}
+		if _, lv := leaves('{'); !lv {
+			bad = append(bad, "the skipping loop does not stop at `{`")
+		}
+	}
+	// the brace test itself: decided by the next rune alone
+	{
+		is := f.Decl.Body.List[iBrace].(*ast.IfStmt)
+		pe := newPathEnum(info)
+		renameRunes(pe, f.Decl.Body)
+		paths, err := pe.Enumerate([]ast.Stmt{is})
+		if err != nil {
+			r.Undecided(clause, "R4 DECISION-TABLE", key, c.pos(is.Pos()), err.Error())
+			return
+		}
+		errs := func(ch rune) (always, never bool) {
+			always, never = true, true
+			for _, p := range selectPaths(paths, runeValuation(int64(ch))) {
+				if p.Kind == "return" || p.Kind == "panic" {
+					never = false
+				} else {
+					always = false
+				}
+			}
+			return
+		}
+		if _, never := errs('{'); !never {
+			bad = append(bad, "after the blanks, `{` is not accepted by a test of the next rune alone ("+oneLine(printNode(c.Fset, is.Cond))+"): whether the body is entered also depends on what follows the brace, `%union {val int}` is rejected")
+		}
+		if always, _ := errs('x'); !always {
+			bad = append(bad, "something other than `{` can open the union body")
+		}
+	}
+	sortStrings(bad)
+	r.Check(len(bad) == 0 && len(blanks) >= 3, clause, "R4 DECISION-TABLE", key, c.pos(f.Decl.Pos()),
+		fmt.Sprintf("the %d blanks rootState skips (%q) are skipped between `%%union` and `{`, the loop stops at `{`, and the brace is recognised by itself", len(blanks), string(blanks)),
+		"the layout between `%union` and its body matters: "+strings.Join(bad, "; "))
+	// comments in that position
+	{
+		handles := false
+		for _, st := range f.Decl.Body.List[:iBrace] {
+			ast.Inspect(st, func(n ast.Node) bool {
+				if call, ok := n.(*ast.CallExpr); ok {
+					if fn := callee(info, call); fn != nil && (fn.Name() == "CommentState" || fn.FullName() == "strings.HasPrefix") {
+						handles = true
+					}
+				}
+				return true
+			})
+		}
+		r.Check(handles, "C10.e", "R4 DECISION-TABLE", f.Name+"/comment-before-the-brace", c.pos(f.Decl.Pos()),
+			"a comment between `%union` and `{` is recognised",
+			"a comment between `%union` and `{` (`%union /* values */ {`, or `%union // values` with the brace on the next line) is not skipped: the grammar is rejected as `not correct token` although only a comment was added")
 	}
 }
